@@ -198,7 +198,7 @@ func validity(e *entry, d decoder, recv any, tripwire bool) (kind, msg string) {
 // bigAllocSite names the library function that allocated the most since the previous call, from the heap
 // profile (MemProfileRate is 1 MiB in the helper, so every allocation of tens of MiB has a record; records become
 // visible after garbage collections).
-var allocSeen = map[[32]uintptr]int64{}
+var allocSeen = map[[32]uintptr][2]int64{}
 
 func bigAllocSite() string {
 	runtime.GC()
@@ -209,15 +209,18 @@ func bigAllocSite() string {
 	if !ok {
 		return ""
 	}
+	// the call stack whose allocations since the previous look were individually huge (>= 32 MiB per object on
+	// average: the harmless 2^19 probes of other fields, a dozen MiB each, do not qualify), largest total first
 	best, bestDelta := -1, int64(0)
 	for i := 0; i < n; i++ {
-		d := recs[i].AllocBytes - allocSeen[recs[i].Stack0]
-		allocSeen[recs[i].Stack0] = recs[i].AllocBytes
-		if d > bestDelta {
-			best, bestDelta = i, d
+		prev := allocSeen[recs[i].Stack0]
+		db, do := recs[i].AllocBytes-prev[0], recs[i].AllocObjects-prev[1]
+		allocSeen[recs[i].Stack0] = [2]int64{recs[i].AllocBytes, recs[i].AllocObjects}
+		if do > 0 && db/do >= 32<<20 && db > bestDelta {
+			best, bestDelta = i, db
 		}
 	}
-	if best < 0 || bestDelta < 32<<20 {
+	if best < 0 {
 		return ""
 	}
 	frames := runtime.CallersFrames(recs[best].Stack())
